@@ -11,9 +11,9 @@ use serde_json::json;
 pub static MONITOR: Monitor = Monitor {
     id: "C10",
     title: "All API routes agree; rendering is deterministic and trees are reusable",
-    rule: "A case is a call history: one document (table- and list-rich grammar document, 1 in 5 byte-mutated), one configuration (plain/plain_no_decorate/rich/trivial x layout option subsets, 1 in 4 with allow_width_overflow) and a width sequence w1..wn (n<=6; repeats, out-of-order values, 0 and too-narrow widths in between). For every wi the monitor compares string_from_read, a second string_from_read, join(lines_from_read), coloured with an identity map (rich), and render_to_string / join(render_to_lines) of clones of ONE tree built once by parse_html+dom_to_render_tree and rendered at all wi in order; Ok texts must be byte-equal and errors must be the same kind. Distinct/non-trivial = distinct (document,width) results that are Ok with non-empty text; EstimateHit/Miss hook events count how often cached size estimates were reused.",
+    rule: "A case is a call history: one document (table- and list-rich grammar document, 1 in 5 byte-mutated), one configuration (plain/plain_no_decorate/rich/trivial x layout option subsets, 1 in 4 with allow_width_overflow) and a width sequence w1..wn (n<=6; repeats, out-of-order values, 0 and too-narrow widths in between). For every wi the monitor compares string_from_read, a second string_from_read, join(lines_from_read), coloured with an identity map (rich), and render_to_string / join(render_to_lines) of clones of ONE tree built once by parse_html+dom_to_render_tree and rendered at all wi in order; Ok texts must be byte-equal and errors must be the same kind. In addition the first 400 cases are re-run in a second, separate worker process and a digest of everything the crate returned is compared with the first run (process-random state such as HashMap seeds must not leak into results). Distinct/non-trivial = distinct (document,width) results that are Ok with non-empty text; EstimateHit/Miss hook events count how often cached size estimates were reused.",
     assumptions: &[
-        "routes are compared inside one process; cross-process determinism is covered only in so far as no route consults process-random state that changes between calls",
+        "cross-process determinism is checked on a sample of 400 cases per run (two processes)",
     ],
     plan,
     run_case,
@@ -31,7 +31,7 @@ fn plan(tier: Tier) -> Plan {
             exhaustive: false,
         },
         Tier::Thorough => Plan {
-            cases: 300_000,
+            cases: 1_000_000,
             time_cap_s: 480,
             case_timeout_s: 20,
             exhaustive: false,
@@ -47,6 +47,7 @@ fn thresholds(_t: Tier) -> Vec<(&'static str, u64)> {
         ("histories_with_error_between", 100),
         ("routes_compared", 5_000),
         ("docs_with_table", 100),
+        ("cross_process_cases_compared", 100),
     ]
 }
 
@@ -139,6 +140,10 @@ fn run_case(seed: u64, idx: u64, _tier: Tier, out: &mut CaseOut) {
         if cfg.deco == Deco::Rich {
             routes.push(("coloured(identity)", render_coloured(&cfg, &input, w)));
             out.evals += 1;
+        }
+        out.digest_str(&format!("{}|{:?}", w, a));
+        if let Outcome::Ok(ls) = &l {
+            out.digest_str(&format!("{:?}", ls));
         }
         if !a.is_total() {
             // C01's business; nothing to compare
